@@ -136,7 +136,7 @@ def run_mutant(m, full_matrix, runs):
             res["detail"] = out[-400:]
             return res
         targets = [p.strip() for p in m["expect"].split(":")[0].split(",")] if m["kind"] == "breaking" else []
-        props = PROPS if (full_matrix or m["kind"] == "benign") else targets
+        props = PROPS if (full_matrix or m["kind"] != "breaking") else sorted(set(targets + m.get("accept", [])))
         env = dict(ENV, VERIF_REPO=dst, VERIF_DIR=os.path.join(base, "out"), VERIF_RUNS=str(runs), VERIF_WORKERS="4")
         alarms = {}
         for p in props:
@@ -158,7 +158,11 @@ def run_mutant(m, full_matrix, runs):
         res["alarms"] = alarms
         if m["kind"] == "breaking":
             hit = [p for p in targets if p in alarms]
-            res["status"] = "DETECTED" if hit else "MISSED"
+            also = [p for p in m.get("accept", []) if p in alarms]
+            res["status"] = "DETECTED" if hit else ("DETECTED-UNDER-" + "+".join(also) if also else "MISSED")
+        elif m["kind"] == "disputed":
+            # judged not to violate the property as stated (see meta.json "assessment"): either outcome is recorded
+            res["status"] = "DISPUTED-REPORTED" if alarms else "DISPUTED-SILENT"
         else:
             res["status"] = "SILENT" if not alarms else "FALSE-ALARM"
         return res
@@ -180,7 +184,7 @@ def mutants(args, corpus_path=None, label="mutants"):
         for r in ex.map(lambda m: run_mutant(m, full, runs), corpus):
             results.append(r)
             print(f"{r['id']:34s} {r['status']:12s} {json.dumps(r.get('alarms', r.get('detail', '')))[:300]}", flush=True)
-    bad = [r for r in results if r["status"] not in ("DETECTED", "SILENT")]
+    bad = [r for r in results if not (r["status"] in ("DETECTED", "SILENT") or r["status"].startswith("DETECTED-UNDER-") or r["status"].startswith("DISPUTED-"))]
     out = os.path.join(HERE, f"{label}/last_results.json")
     json.dump(results, open(out, "w"), indent=1)
     if full and not args:
@@ -197,7 +201,7 @@ def seeded(args):
         if os.path.exists(meta):
             mj = json.load(open(meta))
             kind = mj.get("kind", "breaking")
-            corpus.append({"id": name, "kind": kind, "expect": (mj.get("property", "benign") + ": " + mj.get("summary", "")), "patch": os.path.join(d, name, "patch.diff")})
+            corpus.append({"id": name, "kind": kind, "expect": (mj.get("property", "benign") + ": " + mj.get("summary", "")), "patch": os.path.join(d, name, "patch.diff"), "accept": mj.get("accept", [])})
     tmp = os.path.join(d, ".corpus.tmp.json")
     json.dump(corpus, open(tmp, "w"))
     try:
